@@ -2,7 +2,7 @@
 From Coq Require Import String.
 From Coq Require Import List Bool Arith ZArith.
 Import ListNotations.
-Require Import PPCore PPHost Memo MemoProofs PyLib G_fn_ip RefIpCommon RefDeanon.
+Require Import PPCore PPHost Memo MemoProofs.
 
 Section C02.
 Variable H : bits -> bool.
@@ -29,19 +29,6 @@ Theorem C02_code_undo_from_any_reachable_state :
 Proof. exact (MemoProofs.history_independent H n B seeds). Qed.
 End C02.
 
-(* TIE A (function level): the GENERATED deanonymize / _deanonymize_bits, from any memo satisfying the invariant -- cold or warm --
-   returns the pure pre-image and re-establishes the invariant *)
-Theorem C02_generated_undo_returns_the_pure_preimage :
-  forall (H : list bool -> bool) (py_call : pyval -> pyval -> PyLib.res) (clsname : list Z) (saltv lengthv fmtv salterv : pyval) (rest : list (pyval * pyval))
-         (n B : nat) (seeds : list (list bool)),
-  (forall b, py_call salterv (VList [saltv; VS b]) = Normal (VInt (if H b then 1 else 0)%Z)) ->
-  forall d x bits y, MemoProofs.Inv H n B seeds d -> List.length bits = n -> (B <= n)%nat ->
-  py_format fmtv (VList [VInt x]) (VDict []) = Normal (VS bits) ->
-  py_int (VS (MemoProofs.DB H n B seeds bits)) (VInt 2) = Normal (VInt y) ->
-  exists d', gen__BaseIpAnonymizer__deanonymize py_call (S (List.length bits)) (mkself clsname saltv lengthv fmtv salterv (Z.of_nat B) rest d) (VInt x)
-             = Normal (VTuple [VInt y; mkself clsname saltv lengthv fmtv salterv (Z.of_nat B) rest d']) /\ MemoProofs.Inv H n B seeds d'.
-Proof. exact gen_deanonymize_returns_preimage. Qed.
-
 Example C02_instance :
   let H := fun h : bits => Nat.odd (length h) in
   MemoProofs.DB H 4 1 [[true; false]] (MemoProofs.AB H 4 1 [[true; false]] [false; true; true; false]) = [false; true; true; false].
@@ -51,4 +38,3 @@ Print Assumptions C02_undo_of_image_is_original.
 Print Assumptions C02_image_of_undone_is_input.
 Print Assumptions C02_cold_instance_invariant.
 Print Assumptions C02_code_undo_from_any_reachable_state.
-Print Assumptions C02_generated_undo_returns_the_pure_preimage.
